@@ -57,6 +57,11 @@ pub(super) fn end_stream_decision(stream: &Stream) -> EndStreamAction {
         } else {
             EndStreamAction::ForwardUnterminated
         }
+    } else if stream.back.is_error() && stream.back.consumed {
+        // The response was cut short (demoted to the error phase) after part
+        // of it had already been written to the client: a default answer
+        // would land behind those bytes as a second status line.
+        EndStreamAction::ForwardUnterminated
     } else if stream.front.consumed {
         EndStreamAction::SendDefault(502)
     } else {
